@@ -588,7 +588,8 @@ class Program(object):
 
         def choose(c):
             k = t_.get("k")
-            if k == "if" and len(rest.succs) == 2 and not t_.get("leaf"):
+            # (also the operand blocks of a short-circuit condition: successor 0 is always "this operand is true")
+            if k in ("if", "land", "lor", "while", "for", "do") and len(rest.succs) == 2:
                 if not t_.get("cmp"):
                     if not is_subject(t_.get("core")) or not isinstance(c, bool):
                         return None
@@ -638,7 +639,7 @@ class Program(object):
             c = ir.get("const")
             k_ = choose(c) if c is not None else None
             rv_ = (ir.get("val") or {}).get("v")
-            if c is None and rv_ and t_.get("k") == "if" and not t_.get("cmp") and is_subject(t_.get("core")) and len(rest.succs) == 2 and \
+            if c is None and rv_ and t_.get("k") in ("if", "land", "lor", "while") and not t_.get("cmp") and is_subject(t_.get("core")) and len(rest.succs) == 2 and \
                     "bool" in ((ir.get("val") or {}).get("vt") or (ir.get("val") or {}).get("ty") or ""):
                 # the helper returns one of its bool locals: the caller's branch becomes a branch on that local, so that the
                 # flag-sensitive exploration (cfg.flag_vars) sends each path of the helper down the arm its value selects
